@@ -1,5 +1,6 @@
 //! C17 — all allocation entry points are interchangeable: two arenas in identical states, the same request
 //! through two different entry points, same offset / allocated byte count / length.
+use crate::check;
 use crate::common::*;
 use bump_scope::alloc::Allocator;
 use bump_scope::settings::BumpAllocatorSettings;
@@ -26,9 +27,9 @@ where
 }
 
 fn assert_same(a: &Obs, b: &Obs) {
-    assert!(a.ok == b.ok, "C17: one entry point succeeded where the other failed");
-    assert!(a.off == b.off, "C17: entry points returned blocks at different offsets");
-    assert!(a.allocated == b.allocated, "C17: entry points left different allocated byte counts");
+    check!(a.ok == b.ok, "C17: one entry point succeeded where the other failed");
+    check!(a.off == b.off, "C17: entry points returned blocks at different offsets");
+    check!(a.allocated == b.allocated, "C17: entry points left different allocated byte counts");
 }
 
 fn two<St: BumpAllocatorSettings>() -> Option<(Bump<VA, St>, Bump<VA, St>)>
@@ -46,7 +47,7 @@ where
     let lf = any_layout(9, 3);
     let fx = x.allocate(lf).is_ok();
     let fy = y.allocate(lf).is_ok();
-    assert!(fx == fy, "C17: identical arenas disagree on the filler");
+    check!(fx == fy, "C17: identical arenas disagree on the filler");
     Some((x, y))
 }
 
@@ -85,13 +86,13 @@ where
     kani::cover!(rx.is_some() && n == 3, "three elements fit");
     kani::cover!(rx.is_none() && n > (isize::MAX as usize), "size computation overflows");
     if let Some((_, len)) = rx {
-        assert!(len == n, "C17: slice has the wrong length");
+        check!(len == n, "C17: slice has the wrong length");
     }
     // an empty / zero-sized slice never touches the allocator: compare only the observable effects
     if core::mem::size_of::<T>() * (if n < 64 { n } else { 64 }) > 0 {
         assert_same(&observe(&x, rx.map(|r| r.0)), &observe(&y, ry));
     } else {
-        assert!(x.stats().allocated() == y.stats().allocated(), "C17: empty slice changed the allocated byte count");
+        check!(x.stats().allocated() == y.stats().allocated(), "C17: empty slice changed the allocated byte count");
     }
     kani::cover!(true, "END: harness ran to completion");
 }
@@ -152,7 +153,7 @@ where
         // try_ failed => the panicking twin must not have returned: unreachable here
         panic!("C17/C07: try_alloc failed where alloc returned normally");
     };
-    assert!(*bx == v && *by == v, "C17: twins stored different values");
+    check!(*bx == v && *by == v, "C17: twins stored different values");
     let (ax, ay) = (addr(bx.into_raw().cast()), addr(by.into_raw().cast()));
     assert_same(&observe(&x, Some(ax)), &observe(&y, Some(ay)));
     kani::cover!(true, "END: harness ran to completion");
@@ -172,8 +173,8 @@ where
     let dy: &dyn BumpAllocatorCoreScope = y.as_scope();
     let Ok(mut vx) = bump_scope::BumpVec::<u8, _>::try_with_capacity_in(5, &*x) else { return };
     let Ok(mut vy) = bump_scope::BumpVec::<u8, _>::try_with_capacity_in(5, dy) else { return };
-    assert!(vx.try_push(vals[0]).is_ok() && vy.try_push(vals[0]).is_ok(), "push within capacity");
-    assert!(vx.try_push(vals[1]).is_ok() && vy.try_push(vals[1]).is_ok(), "push within capacity");
+    check!(vx.try_push(vals[0]).is_ok() && vy.try_push(vals[0]).is_ok(), "push within capacity");
+    check!(vx.try_push(vals[1]).is_ok() && vy.try_push(vals[1]).is_ok(), "push within capacity");
     let (ax, ay) = if op == 0 {
         vx.shrink_to_fit();
         vy.shrink_to_fit();
@@ -183,7 +184,7 @@ where
         r
     } else {
         let (bx, by) = (vx.into_boxed_slice(), vy.into_boxed_slice());
-        assert!(bx[0] == by[0] && bx[1] == by[1] && bx.len() == by.len(), "C17: entry points produced different contents");
+        check!(bx[0] == by[0] && bx[1] == by[1] && bx.len() == by.len(), "C17: entry points produced different contents");
         let r = (bx.as_ptr() as usize, by.as_ptr() as usize);
         core::mem::forget(bx);
         core::mem::forget(by);
